@@ -88,14 +88,22 @@ func checkFinalMemory(sc *Scenario, out *outcome, initial, final []int8) (string
 			byByte[a] = append(byByte[a], w{o.data[k], o.call, o.ret, o})
 		}
 	}
+	mask := make([]bool, len(final))
+	for a := range byByte {
+		mask[a] = true
+	}
 	for a := range final {
-		ws := byByte[int32(a)]
-		if len(ws) == 0 {
-			if final[a] != initial[a] {
-				return "final-memory", fmt.Sprintf("byte %d was never written by a completed write but holds %d (initially %d)", a, final[a], initial[a])
-			}
-			continue
+		if !mask[a] && final[a] != initial[a] {
+			return "final-memory", fmt.Sprintf("byte %d was never written by a completed write but holds %d (initially %d)", a, final[a], initial[a])
 		}
+	}
+	written := make([]int32, 0, len(byByte))
+	for a := range byByte {
+		written = append(written, a)
+	}
+	sort.Slice(written, func(i, j int) bool { return written[i] < written[j] })
+	for _, a := range written {
+		ws := byByte[a]
 		ok := false
 		var allowed []int8
 		for i, x := range ws {
